@@ -6,6 +6,8 @@ import NibabelModel.Lemmas.C02_Tfm
 import NibabelModel.Lemmas.C02_E2E
 import NibabelModel.Lemmas.C02_More
 import NibabelModel.Generated.C02Caps
+import NibabelModel.Lemmas.C02_Route
+import NibabelModel.Generated.C02Readers
 /-! Props/C02 — rescaled integer storage: bounded error, no wrap-around, or a loud refusal.
 
 All statements are about the executable model `Model/C02.lean` (exact `Rat`), for ALL values, slopes, intercepts,
@@ -550,5 +552,123 @@ theorem iu2iu_exact_int (w : Writer) (rnd : Rat → Rat) (p32 : Nat) (o : OutT) 
     exact ⟨e1, fun v h1 h2 => e2 v h1 h2 rfl⟩
 
 example : iu2iuInter id 24 ⟨-32768, 32767⟩ (-32768, 32767) 100000 160000 = .ok (1, 130000) := by decide +kernel
+
+
+/-! ## where the image comes from, what reaches the disk, what the reader makes of it  (Model/C02_Route)
+
+`toFileMapF` is `toFileMap` together with the RAW header fields: those the call writes to disk and those it leaves in
+the image header.  `proxySI k disk g` is what the array proxy of a reloaded image of class `k` uses as (slope,
+intercept): `get_slope_inter` of the header class on the fields on disk. -/
+
+/-- READER INVERTS WRITER.  For every header class, every data type, every data array and EVERY content of the header
+    fields the class does not consume (an intercept left behind by a donor header, `funused` values, gl / cal fields):
+    if the scaling is calculated (`scale_me`) and the save succeeds having chosen `(s, b)`, then the reader of that class
+    gets exactly `(s, b)` back from the header on disk — so the `error_bound*` / `save_error_bound_*` theorems, which
+    speak about `q·s + b`, speak about the values the reloaded image hands out. -/
+theorem reader_inverts_writer (k : HK) (rnd : Rat → Rat) (p32 : Nat) (i : InT) (dt : DT) (f : Flds) (arg : Option DT)
+    (data : List Val) (s b : Rat) (raws : List Int) (disk after : Flds) (g : GlCal)
+    (hsm : scaleMeF k f = true)
+    (e : toFileMapF k rnd p32 i dt f arg data = some (.ok (s, b, raws), disk, after)) :
+    proxySI k disk g = .ok (s, b) :=
+  reader_inverts g hsm e
+
+example : toFileMapF .spm2 id 24 (.flt 53) (.int ⟨-32768, 32767⟩) ⟨.nan, .fin 150⟩ none [.fin 0, .fin 65534]
+    = some (.ok (2, 0, [0, 32767]), ⟨.fin 2, .fin 0⟩, ⟨.nan, .fin 0⟩) := by decide +kernel
+
+/-- the pinned SPM2 `set_slope_inter` (before `fix:` a029be1a) left `scl_inter` alone: the intercept of a NIfTI header
+    handed to `Spm2AnalyzeImage(data, aff, header=…)` went to disk next to the new slope, and the reader adds it to
+    every value: the save chose (1, 0) and the reloaded image uses (1, 150). -/
+theorem spm2_stale_intercept_orig_counterexample :
+    ∃ s b raws disk after,
+      toFileMapFOrig .spm2 id 24 (.flt 53) (.int ⟨-32768, 32767⟩)
+        (routeFldsOrig .hdrRaw .nifti .spm2 ⟨.fin 2, .fin 150⟩) none [.fin 0, .fin 32767]
+        = some (.ok (s, b, raws), disk, after) ∧
+      scaleMeF .spm2 (routeFldsOrig .hdrRaw .nifti .spm2 ⟨.fin 2, .fin 150⟩) = true ∧
+      proxySI .spm2 disk .zero = .ok (s, b + 150) :=
+  ⟨1, 0, [0, 32767], ⟨.fin 1, .fin 150⟩, ⟨.nan, .fin 150⟩, by decide +kernel, by decide, by decide +kernel⟩
+
+/-- … while files written by that older code from an ordinary NIfTI image (`from_image`: the stale field is the NaN
+    of the "calculate" state) or from a fresh SPM2 image (0) are read back as the writer meant: the SPM2 reader counts
+    a non-finite intercept next to a valid slope as 0. -/
+theorem reader_inverts_pre_fix_spm2_writer (rnd : Rat → Rat) (p32 : Nat) (i : InT) (dt : DT) (f : Flds)
+    (arg : Option DT) (data : List Val) (s b : Rat) (raws : List Int) (disk after : Flds) (g : GlCal)
+    (hsm : scaleMeF .spm2 f = true) (hst : ∀ r, f.inter = .fin r → r = 0)
+    (e : toFileMapFOrig .spm2 rnd p32 i dt f arg data = some (.ok (s, b, raws), disk, after)) :
+    proxySI .spm2 disk g = .ok (s, b) :=
+  reader_inverts_orig_spm2 g hsm hst e
+
+example : toFileMapFOrig .spm2 id 24 (.flt 53) (.int ⟨-32768, 32767⟩)
+      (routeFldsOrig .fromImage .nifti .spm2 ⟨.fin 2, .fin 150⟩) none [.fin 0, .fin 65534]
+    = some (.ok (2, 0, [0, 32767]), ⟨.fin 2, .nan⟩, ⟨.nan, .nan⟩) := by decide +kernel
+
+/-- the "flattened" reader (one finiteness test over slope AND intercept) drops the slope of exactly those files:
+    it reads (valid slope, NaN intercept) as "no scaling" -/
+theorem reader_flat_counterexample :
+    readSI .spm2 ⟨.fin 2, .nan⟩ .zero = .ok (some 2, some 0) ∧ readSIFlat ⟨.fin 2, .nan⟩ .zero = .ok (none, none) := by
+  constructor <;> decide +kernel
+
+/-- CONSTRUCTION ROUTES ARE INVISIBLE.  However the image was obtained — its own class's header with any field
+    contents, a header of any other class (as read from a file, or taken from an image), `from_image` — the image
+    constructor leaves the header in the "calculate" state with no stale SPM2 intercept, and `to_file_map` returns
+    exactly `save` for the on-disk type of the call. -/
+theorem route_invisible (r : Route) (dk k : HK) (F : Flds) (rnd : Rat → Rat) (p32 : Nat) (i : InT) (dt : DT)
+    (arg : Option DT) (o : OutT) (data : List Val) (ho : effectiveOut dt arg = some o) :
+    scaleMeF k (routeFlds r dk k F) = true ∧
+    (k = .spm2 → (routeFlds r dk k F).inter = .fin 0) ∧
+    ∃ disk after, toFileMapF k rnd p32 i dt (routeFlds r dk k F) arg data
+                    = some (save k.cls rnd p32 i o data, disk, after) := by
+  obtain ⟨h1, _, _, h4⟩ := routeFlds_scaleMe r dk k F
+  exact ⟨h1, h4, toFileMapF_eq_save rnd p32 i dt arg o data h1 ho⟩
+
+example : routeFlds .fromImage .spm2 .nifti ⟨.fin 2, .fin 7⟩ = ⟨.nan, .nan⟩ ∧
+          routeFlds .hdrRaw .analyze .spm99 ⟨.fin 3, .fin 7⟩ = ⟨.nan, .fin 7⟩ := by decide
+
+/-- WORKING COPIES ARE NOT THE IMAGE.  For a proxy image (loaded from a file), and for an array image of integer type
+    that is not edited through `img.dataobj`, no sequence of `get_fdata(dtype, caching)`, in-place edits of the arrays
+    it returned, and `uncache()` changes the data `to_file_map` writes — whatever the float conversion `cast` does. -/
+theorem save_ignores_working_copies (isProxy : Bool) (arrFT : Option FT) (cast : FT → List Val → List Val)
+    (data : List Val) (ops : List HOp)
+    (hk : isProxy = true ∨ (arrFT = none ∧ ∀ op ∈ ops, ∀ e, op ≠ .editObj e)) :
+    (runH isProxy arrFT cast (ImgSt.init data) ops).written = data :=
+  runH_data isProxy arrFT cast ops (ImgSt.init data) hk ⟨by simp [ImgSt.init], by simp [ImgSt.init]⟩
+
+example : (runH false (some .f64) (fun _ xs => xs) (ImgSt.init [.fin (-4), .fin 4]) [.fd .f64 true, .edit .clip0]).written
+    = [.fin 0, .fin 4] := by decide +kernel       -- (an array image asked for its own dtype hands out ITS array)
+
+/-- the seeded variant that writes `_fdata_cache` for scaled proxies writes the edited working copy -/
+theorem save_from_cache_counterexample :
+    (runH true none (fun _ xs => xs) (ImgSt.init [.fin (-4), .fin 4]) [.fd .f32 true, .edit .clip0]).written
+      = [.fin (-4), .fin 4] ∧
+    (runH true none (fun _ xs => xs) (ImgSt.init [.fin (-4), .fin 4]) [.fd .f32 true, .edit .clip0]).writtenFromCache
+      true true = [.fin 0, .fin 4] := by
+  constructor <;> decide +kernel
+
+/-- RELOAD OF A FILE.  What an image loaded from a file of class `dk` holds is `raw·slope + inter` with the pair the
+    reader of `dk` returns (total: it always returns a pair or refuses loudly), element by element. -/
+theorem load_data_spec (dk : HK) (F : Flds) (g : GlCal) (lo hi : Int) (raws : List Int) (i : InT) (vals : List Val)
+    (e : loadData dk F g lo hi raws = .ok (i, vals)) :
+    ∃ s b, proxySI dk F g = .ok (s, b) ∧ vals = raws.map (fun (q : Int) => Val.fin ((q : Rat) * s + b)) ∧
+      (dk = .analyze → s = 1 ∧ b = 0) ∧ (dk = .spm99 → b = 0) := by
+  unfold loadData at e
+  cases hp : proxySI dk F g with
+  | error err => simp [hp, bind, Except.bind] at e
+  | ok sb =>
+    obtain ⟨s, b⟩ := sb
+    simp only [hp, bind, Except.bind, Except.ok.injEq, Prod.mk.injEq] at e
+    refine ⟨s, b, rfl, by rw [← e.2]; rfl, ?_, ?_⟩
+    · intro hd; subst hd
+      simp [proxySI, readSI, Except.map] at hp
+      exact ⟨hp.1.symm, hp.2.symm⟩
+    · intro hd; subst hd
+      simp only [proxySI, readSI] at hp
+      cases hF : F.slope with
+      | fin r =>
+        by_cases hr : r = 0 <;> simp [hF, hr, Except.map] at hp <;> exact hp.2.symm
+      | nan => simp [hF, Except.map] at hp; exact hp.2.symm
+      | pinf => simp [hF, Except.map] at hp; exact hp.2.symm
+      | ninf => simp [hF, Except.map] at hp; exact hp.2.symm
+
+example : loadData .spm2 ⟨.fin 2, .nan⟩ .zero (-32768) 32767 [100, 200] = .ok (.flt 53, [.fin 200, .fin 400]) := by
+  decide +kernel
 
 end Nb.C02
